@@ -219,6 +219,8 @@ def run_form(mods, case, asyn):
     body = case['body']
     script = annotate(case['script'], case.get('parts') or [])
     parts, views, status = [], [], ('done',)
+    times = case.get('times') or []
+    kept = []
     try:
         if asyn:
             if case['cs']:
@@ -239,7 +241,14 @@ def run_form(mods, case, asyn):
             except (StopIteration, StopAsyncIteration):
                 break
             hs = trusted_headers(part)
-            views.append(public_view(part))
+            # WHEN the metadata is read is part of the script: before / after the content, only after
+            # the whole form was iterated (the part objects are kept), or twice (current + at the end)
+            when = times[i] if i < len(times) else 'before'
+            reads = []
+            views.append(reads)
+            kept.append((part, when, reads))
+            if when in ('before', 'twice'):
+                reads.append(public_view(part))
             a, kind, extra = script[i] if i < len(script) else (('skip',), None, None)
             try:
                 data = do_action(part, act_tuple(a, kind, asyn, extra), i + case.get('variant', 0), step)
@@ -247,6 +256,8 @@ def run_form(mods, case, asyn):
                 parts.append((hs, None))
                 raise
             parts.append((hs, data))
+            if when == 'after':
+                reads.append(public_view(part))
             i += 1
     except mods['MPE'] as e:
         status = ('failed', ERR.get(e.description, 0), e.description if e.description not in ERR else None)
@@ -254,6 +265,10 @@ def run_form(mods, case, asyn):
         status = ('hang',)
     except Exception as e:  # noqa: BLE001
         status = ('crash', type(e).__name__, str(e)[:100])
+    if status[0] in ('done', 'failed'):
+        for part, when, reads in kept:          # the late reads, after the iteration is over
+            if when in ('end', 'twice'):
+                reads.append(public_view(part))
     return parts, status, views
 
 
@@ -450,7 +465,7 @@ def unjson(x):
 
 
 def case_detail(case, which):
-    d = {k: case[k] for k in ('body', 'content_type', 'cfg', 'script', 'cs', 'variant') if k in case}
+    d = {k: case[k] for k in ('body', 'content_type', 'cfg', 'script', 'cs', 'variant', 'times') if k in case}
     d['boundary'] = case['boundary']
     for k in ('chunks', 'sched', 'parts', 'pre', 'epi', 'fin', 'edit'):
         if k in case:
@@ -470,7 +485,9 @@ def judge(ctx, which, case, impl, model_run, oracle):
                       key='%s-%s-%s' % (which, status[0], status[1] if len(status) > 1 else ''))
     elif status[0] == 'failed' and status[1] == 0:
         ctx.advisory.append({'unclassified MultipartParseError': status[2]})
-    for i, v in enumerate(views):
+    flat_views = [(i, v) for i, reads in enumerate(views) for v in reads]
+    flat_k = [(i, k) for i, reads in enumerate(views) for k, _ in enumerate(reads)]
+    for i, v in flat_views:
         for attr, val in v.items():
             if isinstance(val, tuple) and val[0] == 'raises' and val[1] != 'MultipartParseError':
                 bad = True
@@ -487,20 +504,26 @@ def judge(ctx, which, case, impl, model_run, oracle):
                                what='the parsed form is not the encoded one (parts, bytes as consumed, or final status)'),
                           key='%s-roundtrip' % which)
         if not bad:
-            for i, v in enumerate(views):
+            when = case.get('times') or []
+            for (i, v), (_, k) in zip(flat_views, flat_k):
                 ev = dict(expected_view(case['parts'][i]), secure_filename=case['coq_secure'][i])
-                cv = dict(case['coq_views'][i], secure_filename=case['coq_secure'][i])
+                cr = case['coq_reads'][i]
+                # a read that the real run performed late (k-th read of this part); when the run stopped
+                # early the 'end' read of 'twice' is the model's second one
+                cv = dict(cr[min(k, len(cr) - 1)], secure_filename=case['coq_secure'][i])
                 if v != ev or v != cv:
                     bad = True
                     ctx.violation('%s-bodypart-name-filename-content-type' % which,
-                                  dict(detail, part=i, impl=jsonable(v), encoded=jsonable(ev), coq_view=jsonable(cv),
+                                  dict(detail, part=i, metadata_read=when[i] if i < len(when) else 'before',
+                                       impl=jsonable(v), encoded=jsonable(ev), coq_view=jsonable(cv),
                                        what='BodyPart.content_type/.name/.filename/.secure_filename differ from the '
                                             'encoded field (= view_of of the expected headers, C13_form_roundtrip)'),
                                   key='%s-view' % which)
                     break
     elif not bad and case.get('model_views') is not None:
         # corrupted body: the attributes must be what ModelPart computes from the header dictionary
-        for i, (v, mv) in enumerate(zip(views, case['model_views'])):
+        for i, v in flat_views:
+            mv = case['model_views'][i] if i < len(case['model_views']) else None
             if mv is None:
                 continue
             cmpv = {k: v[k] for k in ('content_type', 'name', 'filename')}
@@ -568,6 +591,12 @@ def build_valid_cases(ctx, model, n):
         c['body'] = bytes(body)
         c['content_type'] = content_type_for(c['boundary'])
         c['valid'] = True
+    attach_coq_views(model, keep)
+    return keep
+
+
+def attach_coq_views(model, keep):
+    """per valid case: what each part must present, computed on the Coq side"""
     # what each part must present, from the Coq side: view_of (expect_headers ...) (ModelPart/SpecPart;
     # proved equal to the field by C13_form_roundtrip for undecorated parts)
     big = [0, 100000, 10]
@@ -576,6 +605,7 @@ def build_valid_cases(ctx, model, n):
     views = iter(model.run_many([[7, hs] for hs in flat]))
     for c, e in zip(keep, exp):
         c['coq_views'] = [r_view(next(views)) for _ in e[0]]
+        c['exp_headers'] = [hs for hs, _ in e[0]]
     # secure_filename of the encoded filename (NFKD supplied by CPython, see ModelPart.secure_filename)
     import unicodedata
     sw, where = [], []
@@ -588,7 +618,6 @@ def build_valid_cases(ctx, model, n):
             where.append((c, i))
     for (c, i), out in zip(where, model.run_many(sw)):
         c['coq_secure'][i] = common.wstr(out[0]) if out else ('raises', 'MultipartParseError')
-    return keep
 
 
 def specialise(rng, base, asyn):
@@ -597,6 +626,16 @@ def specialise(rng, base, asyn):
     c['script'] = gen_script(rng, c.get('parts') or [{'content': b''}] * 3, cs_eff(c, asyn))
     c['cfg'] = gen_cfg(rng, c.get('parts') or [], c['script'])
     c['variant'] = rng.randint(0, 2)
+    nparts = max(len(c.get('parts') or []), 3)
+    style = rng.random()
+    if style < 0.2:
+        c['times'] = ['end'] * nparts          # parts = list(form); inspect afterwards
+        if rng.random() < 0.5:
+            c['script'] = [('skip',)] * nparts
+    elif style < 0.3:
+        c['times'] = ['twice'] * nparts
+    else:
+        c['times'] = [rng.choice(['before', 'after', 'end', 'twice']) for _ in range(nparts)]
     return c
 
 
@@ -647,6 +686,14 @@ def run_batch(ctx, mods, model, cases, asyn, tag):
                 vwhere.append((c, j))
     for (c, j), out in zip(vwhere, model.run_many(vw)):
         c['model_views'][j] = r_view(out)
+    # valid forms: the views each metadata read must return, from the extracted ModelHeap.metadata_views
+    # (one dictionary per part; C13_metadata_read_time_independent: = view of the part's own headers)
+    tcode = {'before': 0, 'after': 1, 'end': 2, 'twice': 3}
+    vcases = [c for c in cases if c.get('valid')]
+    mv = model.run_many([[10, c['exp_headers'], [tcode[t] for t in (c.get('times') or [])][:len(c['exp_headers'])]]
+                         for c in vcases])
+    for c, out in zip(vcases, mv):
+        c['coq_reads'] = [[r_view(v) for v in reads] for reads in out]
     owires, oidx = [], []
     for i, (c, im) in enumerate(zip(cases, impls)):
         if c.get('valid') and im[1][0] in ('done', 'failed'):
@@ -824,6 +871,8 @@ def replay(ctx, obj):
         ctx.note_case('replay-pad', True)
         return
     c.setdefault('cs', None)
+    if c['valid']:
+        attach_coq_views(model, [c])
     if asyn:
         c.setdefault('chunks', [c['body']])
     else:
